@@ -407,12 +407,14 @@ def build_target(cuqi, cfg):
 
 class StepRunner:
     """one sampler step with a scripted normal draw from a chosen current state"""
-    def __init__(self, cuqi, cfg, target, maxit, tol):
+    def __init__(self, cuqi, cfg, target, maxit, tol, sampler=None):
         self.cfg = cfg
         self.iface = cfg["iface"]
         self.maxit, self.tol = maxit, tol
         self.target = target
-        if self.iface == "exp":
+        if sampler is not None:
+            self.s = sampler          # a sampler with its own construction / configuration history
+        elif self.iface == "exp":
             import cuqi.experimental.mcmc as em
             self.s = em.LinearRTO(target, initial_point=np.zeros(cfg["n"]), maxit=maxit, tol=tol)
             self.s.initialize()
@@ -611,6 +613,7 @@ def run(ctx):
     ctx.extra_cov["rto_input_forms"] = forms
 
     records += history_records(ctx, cuqi, r, thorough)
+    records += settings_records(ctx, cuqi, r, thorough)
 
     lines, idx = [], []
     for i, rec in enumerate(records):
@@ -624,7 +627,7 @@ def run(ctx):
 
     for rec in records:
         cfg, key, desc = rec["cfg"], rec["key"], rec["desc"]
-        kind = ("rto-scaled-" if cfg.get("special") == "scaled" else "rto-history-" if cfg.get("history") else "rto-") + f"{cfg['iface']}-{cfg['target']}"
+        kind = ("rto-scaled-" if cfg.get("special") == "scaled" else ("rto-settings-" if "sampler" in cfg["history"] else "rto-history-") if cfg.get("history") else "rto-") + f"{cfg['iface']}-{cfg['target']}"
         ctx.case(kind, desc)
         if "impl_err" in rec:
             # every generated configuration is a valid linear-Gaussian problem: a refusal is reported, not a wrong draw
@@ -636,6 +639,8 @@ def run(ctx):
 
     run_steps(ctx, cuqi, records, r, thorough)
     run_large(ctx, cuqi, r, thorough)
+    run_inputs(ctx, cuqi, r, thorough)
+    run_ugla_settings(ctx, cuqi, r, thorough)
     run_ugla(ctx, cuqi, r, thorough)
     run_validation(ctx, cuqi, r)
 
@@ -950,6 +955,263 @@ def history_records(ctx, cuqi, r, thorough):
             rec["impl_err"] = f"{type(ex).__name__}: {str(ex)[:160]}"
         out.append(rec)
     return out
+
+
+
+# ----------------------------------------------------------------------------- configuration histories of the SAMPLER object
+def settings_config(r):
+    """a problem the inner solver cannot finish with the default settings (maxit = 10, tol = 1e-6): n = 14..18, dense A"""
+    n = int(r.randint(14, 17)); m = n + int(r.randint(0, 3))
+    A = r.randint(-2, 3, size=(m, n)).astype(float) + np.vstack([np.eye(n) * 3.0, np.zeros((m - n, n))])
+    d = (r.randint(-6, 7, size=m) / 2.0).astype(float)
+
+    def dyadic_spec(dim, shape):
+        # powers of 4 only: every square-root factor is an exact small dyadic, which keeps the exact model fast at this size
+        kind = ["cov", "prec", "sqrtcov", "sqrtprec"][r.randint(4)]
+        pool = [0.25, 1.0, 4.0, 0.0625, 16.0]
+        val = float(r.choice(pool)) if shape == "scalar" else r.choice(pool, size=dim).astype(float)
+        v = np.repeat(val, dim) if shape == "scalar" else val
+        Dg = np.diag(v if kind in ("cov", "prec") else v * v)
+        return {"kind": kind, "shape": shape, "value": val, "tag": f"{kind}-{shape}",
+                "doc_prec": np.linalg.inv(Dg) if kind in ("cov", "sqrtcov") else Dg}
+    lsp = dyadic_spec(m, "scalar")
+    psp = dyadic_spec(n, ["scalar", "vector"][r.randint(2)])
+    prior = {"type": "gauss", "spec": psp, "mean": r.randint(-3, 4, size=n).astype(float), "tag": psp["tag"]}
+    return {"n": n, "iface": "exp", "backing": "matrix", "target": "posterior",
+            "liks": [{"m": m, "A": A, "d": d, "spec": lsp}], "prior": prior}
+
+
+def settings_records(ctx, cuqi, r, thorough):
+    """options/attributes of the sampler RE-ASSIGNED after construction, after initialisation or after first use; optional
+    arguments passed positionally; target re-assigned followed by reinitialize(): a step must be that of a fresh sampler
+    with the CURRENT configuration (converged, exact posterior draw).  Returns records for the common pipeline."""
+    import cuqi.experimental.mcmc as em
+    import cuqi.sampler as ls
+    variants = [("exp", "late:initialize"), ("exp", "late:warmup"), ("exp", "late:sample"), ("exp", "late:before-init"),
+                ("legacy", "late:sample"), ("legacy", "late:constructed"), ("exp", "positional"), ("legacy", "positional"),
+                ("exp", "retarget+reinitialize"), ("exp", "loose-then-reinitialize")]
+    if thorough:
+        variants = variants * max(2, ctx.scale // 2)
+    out = []
+    for iface, var in variants:
+        for _ in range(50):
+            cfg = settings_config(r)
+            gP = gmrf_precision(cuqi, cfg["prior"], cfg["n"]) if cfg["prior"]["type"] == "gmrf" else None
+            Hh = np.linalg.inv(doc_moments(cfg, gP)[1])
+            if 50 < np.linalg.cond(Hh) < 1e4:
+                break
+        cfg["iface"] = iface; cfg["history"] = {"sampler": var}
+        n = cfg["n"]
+        key = f"settings:{var}:" + cfg_key(cfg)
+        rec = {"cfg": cfg, "key": key, "desc": cfg_desc(cfg), "gmrfP": gP}
+        maxit, tol = maxit_for(n), 1e-13
+        try:
+            with quiet():
+                target, _, _ = build_target(cuqi, cfg)
+                if var == "positional":
+                    s_ = em.LinearRTO(target, np.zeros(n), maxit, tol) if iface == "exp" else ls.LinearRTO(target, np.zeros(n), maxit, tol)
+                    if iface == "exp":
+                        s_.initialize()
+                elif var == "retarget+reinitialize":
+                    cfg_o = dict(cfg); cfg_o["liks"] = [dict(cfg["liks"][0])]; cfg_o["liks"][0]["d"] = cfg["liks"][0]["d"] * 3.0 + 1.0
+                    cfg_o["prior"] = dict(cfg["prior"]); cfg_o["prior"]["mean"] = cfg["prior"]["mean"] + 2.0
+                    other, _, _ = build_target(cuqi, cfg_o)
+                    s_ = em.LinearRTO(other, initial_point=np.zeros(n), maxit=maxit, tol=tol)
+                    s_.sample(2)
+                    s_.target = target
+                    s_.reinitialize()
+                elif var == "loose-then-reinitialize":
+                    s_ = em.LinearRTO(target)
+                    s_.sample(2)
+                    s_.maxit, s_.tol = maxit, tol
+                    s_.reinitialize()
+                else:
+                    # constructed with the DEFAULT solver settings (maxit = 10, tol = 1e-6), used, and only then tightened
+                    s_ = em.LinearRTO(target) if iface == "exp" else ls.LinearRTO(target)
+                    if var == "late:initialize":
+                        s_.initialize()
+                    elif var == "late:warmup":
+                        s_.warmup(2)
+                    elif var == "late:sample":
+                        s_.sample(2)
+                    s_.maxit = maxit
+                    s_.tol = tol
+                    if var == "late:before-init":
+                        s_.initialize()
+                runner = StepRunner(cuqi, cfg, target, maxit, tol, sampler=s_)
+                rec["impl"] = read_affine(runner, r, n)
+                rec["leaf"] = leaf_factors(runner)
+                rec["chain"] = (runner.chain_draws, runner.chain_states)
+                rec["M_callable"] = callable(runner.s.M)
+        except Exception as ex:
+            rec["impl_err"] = f"{type(ex).__name__}: {str(ex)[:160]}"
+        out.append(rec)
+    return out
+
+
+def run_inputs(ctx, cuqi, r, thorough):
+    """properties of the arrays handed in other than their numbers (dtype, layout, writability, container) for initial points,
+    data and forward matrices; caller-owned arrays are not modified; returned arrays are not overwritten by later calls.
+    Float oracle on the offset of the draw (documented posterior mean / UGLA local mean)."""
+    from cuqi.distribution import Gaussian, LMRF, JointDistribution
+    from cuqi.model import LinearModel
+    import cuqi.experimental.mcmc as em
+    import cuqi.sampler as ls
+    reps = 1 if not thorough else 4
+    retained = []
+    for rep in range(reps):
+        n = int(r.randint(3, 7)); m = n + int(r.randint(0, 3))
+        A = r.randint(-2, 3, size=(m, n)).astype(float) + np.vstack([np.eye(n) * 3.0, np.zeros((m - n, n))])
+        d = r.randint(-6, 7, size=m).astype(float)
+        mean = r.randint(-3, 4, size=n).astype(float)
+        x0v = r.randint(-3, 4, size=n).astype(float)
+        Hm = A.T @ A / 0.25 + np.eye(n) / 4.0
+        ref = np.linalg.solve(Hm, A.T @ d / 0.25 + mean / 4.0)
+        N = m + n
+
+        def ro(a):
+            a = np.array(a, dtype=float); a.setflags(write=False); return a
+        x0_forms = {"float64": x0v.copy(), "int64": x0v.astype(np.int64), "int32": x0v.astype(np.int32), "float32": x0v.astype(np.float32),
+                    "list": [float(v) for v in x0v], "read-only": ro(x0v), "strided": np.repeat(x0v, 2)[::2],
+                    "negative-stride": x0v[::-1].copy()[::-1], "fortran-column": np.asfortranarray(np.tile(x0v[:, None], (1, 2)))[:, 0]}
+        data_forms = {"float64": d.copy(), "int64": d.astype(np.int64), "list": [float(v) for v in d], "float32": d.astype(np.float32),
+                      "read-only": ro(d), "strided": np.repeat(d, 2)[::2]}
+        A_forms = {"float64": A.copy(), "int64": A.astype(np.int64), "fortran": np.asfortranarray(A), "transposed-view": np.ascontiguousarray(A.T).T,
+                   "read-only": ro(A), "float32": A.astype(np.float32)}
+
+        def one(iface, sampler, x0, dd, AA):
+            with quiet():
+                x = Gaussian(mean.copy(), cov=4.0, name="x")
+                y = Gaussian(mean=LinearModel(AA)(x), cov=0.25, name="y")
+                post = JointDistribution(x, y)(y=dd)
+                if iface == "exp":
+                    s_ = em.LinearRTO(post, initial_point=x0, maxit=maxit_for(n), tol=1e-13)
+                    s_.initialize()
+                    with patched_randn(np.zeros(N)):
+                        s_.step()
+                    return np.asarray(s_.current_point)
+                s_ = ls.LinearRTO(post, x0=x0, maxit=maxit_for(n), tol=1e-13)
+                with patched_randn(np.zeros(N)):
+                    return np.asarray(s_.sample(2).samples[:, 1])
+        for iface in ("exp", "legacy"):
+            for arg, forms in (("initial_point", x0_forms), ("data", data_forms), ("matrix", A_forms)):
+                for nm, val in forms.items():
+                    desc = {"iface": iface, "argument": arg, "form": nm, "n": n, "m": m, "A": A.tolist(), "d": d.tolist(), "prior_mean": mean.tolist(),
+                            "x0": x0v.tolist(), "noise_cov": 0.25, "prior_cov": 4.0}
+                    ctx.case("inputs-rto", desc)
+                    key = f"inputs:{iface}:{arg}-{nm}"
+                    args = {"initial_point": x0_forms["float64"], "data": data_forms["float64"], "matrix": A_forms["float64"]}
+                    args[arg] = val
+                    snap = [np.array(v, copy=True) if not isinstance(v, list) else list(v) for v in args.values()]
+                    try:
+                        out = one(iface, None, args["initial_point"], args["data"], args["matrix"])
+                    except Exception as ex:
+                        ctx.fail(key + ":refusal", desc, "one exact posterior draw (as for the float64 array with the same numbers)",
+                                 f"{type(ex).__name__}: {str(ex)[:120]}", "sampler fails on a valid array argument that is not a float64 ndarray")
+                        continue
+                    retained.append((key, desc, out, np.array(out, dtype=float, copy=True)))
+                    if _relerr(np.asarray(out, dtype=float), ref) > TOL:
+                        ctx.fail(key + ":mean", desc, ref.tolist(), np.asarray(out, dtype=float).tolist(),
+                                 "offset of the converged draw differs from the posterior mean when the argument is not a float64 C-contiguous ndarray")
+                    for v0, v1 in zip(snap, args.values()):
+                        same = (v0 == v1) if isinstance(v1, list) else np.array_equal(v0, np.asarray(v1))
+                        if not same:
+                            ctx.fail(key + ":caller-array-modified", desc, "argument unchanged", "modified", "a caller-owned array was modified by sampling")
+    # retained outputs re-verified at the end (a later call must not overwrite an earlier result)
+    for key, desc, out, copy_ in retained:
+        if not np.array_equal(np.asarray(out, dtype=float), copy_):
+            ctx.fail(key + ":retained-output", desc, copy_.tolist(), np.asarray(out, dtype=float).tolist(), "a returned array was overwritten by a later call")
+
+
+
+def run_ugla_settings(ctx, cuqi, r, thorough):
+    """UGLA: maxit / tol / beta re-assigned after construction and first use; initial points that are not float64 ndarrays.
+    Float oracle: documented local Gaussian (current beta) at the current state; locations with D·location = 0 only."""
+    from cuqi.distribution import Gaussian, LMRF, Posterior
+    from cuqi.model import LinearModel
+    import cuqi.experimental.mcmc as em
+    import cuqi.sampler as ls
+    reps = 3 if not thorough else 3 * ctx.scale
+    for rep in range(reps):
+        n = int(r.randint(4, 8)); m = n + int(r.randint(0, 3))
+        A = r.randint(-2, 3, size=(m, n)).astype(float) + np.vstack([np.eye(n) * 3.0, np.zeros((m - n, n))])
+        d = (r.randint(-6, 7, size=m) / 2.0).astype(float)
+        bc = ["zero", "neumann", "periodic"][r.randint(3)]
+        loc = np.zeros(n) if bc == "zero" or r.rand() < 0.4 else np.repeat(float(r.randint(1, 4)), n)
+        scale = float(r.choice([0.25, 1.0, 4.0])); beta_new = float(r.choice([1.0, 0.0625, 1e-2]))
+        xk = r.randint(-4, 5, size=n).astype(float)
+        with quiet():
+            x = LMRF(location=loc, scale=scale, bc_type=bc, geometry=n, name="x")
+            y = Gaussian(mean=LinearModel(A.copy())(x), cov=0.25, name="y")
+            post = Posterior(y.to_likelihood(d), x)
+            D = dense(x._diff_op.get_matrix())
+        N = m + D.shape[0]
+        maxit, tol = maxit_for(n), 1e-13
+
+        def reference(beta):
+            wd = 1.0 / np.sqrt((D @ (xk - loc)) ** 2 + beta)
+            Pq = (D.T * wd) @ D / scale
+            Cq = np.linalg.inv(A.T @ A / 0.25 + Pq)
+            return Cq @ (A.T @ d / 0.25 + Pq @ loc), Cq
+        if np.linalg.cond(np.linalg.inv(reference(beta_new)[1])) > 1e5:
+            continue
+        for iface in ("exp", "legacy"):
+            for var in ("late:constructed", "late:used", "positional", "x0-int64", "x0-float32", "x0-read-only"):
+                desc = {"iface": iface, "variant": var, "n": n, "m": m, "A": A.tolist(), "d": d.tolist(), "bc": bc, "location": loc.tolist(),
+                        "scale": scale, "beta": beta_new, "x_k": xk.tolist(), "noise_cov": 0.25}
+                ctx.case("ugla-settings", desc)
+                key = f"settings:ugla:{iface}:{var}"
+                x0 = {"x0-int64": xk.astype(np.int64), "x0-float32": xk.astype(np.float32)}.get(var, xk.copy())
+                if var == "x0-read-only":
+                    x0.setflags(write=False)
+
+                def step(e):
+                    with quiet():
+                        if iface == "exp":
+                            if var.startswith("late"):
+                                s_ = em.UGLA(post)                    # defaults: maxit 50, tol 1e-4, beta 1e-5
+                                if var == "late:used":
+                                    s_.sample(2)
+                                s_.maxit, s_.tol, s_.beta = maxit, tol, beta_new
+                                if var == "late:constructed":
+                                    s_.initialize()
+                                s_.current_point = x0
+                            elif var == "positional":
+                                s_ = em.UGLA(post, x0, maxit, tol, beta_new); s_.initialize()
+                            else:
+                                s_ = em.UGLA(post, initial_point=x0, maxit=maxit, tol=tol, beta=beta_new); s_.initialize()
+                            with patched_randn(e):
+                                s_.step()
+                            return np.asarray(s_.current_point, dtype=float)
+                        if var.startswith("late"):
+                            s_ = ls.UGLA(post)
+                            if var == "late:used":
+                                s_.sample(2)
+                            s_.maxit, s_.tol, s_.beta = maxit, tol, beta_new
+                            s_.x0 = x0
+                            s_.rng = ScriptedRng(e)
+                        elif var == "positional":
+                            s_ = ls.UGLA(post, x0, maxit, tol, beta_new, ScriptedRng(e))
+                        else:
+                            s_ = ls.UGLA(post, x0=x0, maxit=maxit, tol=tol, beta=beta_new, rng=ScriptedRng(e))
+                        return np.asarray(s_.sample(2).samples[:, 1], dtype=float)
+                try:
+                    m0 = step(np.zeros(N))
+                    B = np.zeros((n, N))
+                    for j in range(N):
+                        e = np.zeros(N); e[j] = 1.0
+                        B[:, j] = step(e) - m0
+                except Exception as ex:
+                    ctx.fail(key + ":refusal", desc, "one exact draw of the local Gaussian approximation", f"{type(ex).__name__}: {str(ex)[:120]}",
+                             "UGLA fails on a valid configuration history / array argument")
+                    continue
+                mq, Cq = reference(beta_new)
+                if _relerr(m0, mq) > TOL:
+                    ctx.fail(key + ":mean", desc, mq.tolist(), m0.tolist(),
+                             "offset of the UGLA draw is not the mean of the documented local approximation for the CURRENT settings (maxit, tol, beta)")
+                if _relerr(B @ B.T, Cq) > TOL:
+                    ctx.fail(key + ":cov", desc, Cq.tolist(), (B @ B.T).tolist(),
+                             "B Bᵀ of the UGLA draw is not the covariance of the documented local approximation for the CURRENT settings")
 
 
 
